@@ -70,6 +70,10 @@ DATASET_TEMPLATES = [
     ("udo_add({a} * 2, {b}[filter Me_1 > {s}])", "S", {"a": "udo-dataset-arg-expr", "b": "udo-dataset-arg-expr", "s": "clause"}),
     ("udo_scale({a} + {b}, {s})", "S", {"a": "udo-dataset-arg-expr", "b": "udo-dataset-arg-expr", "s": "udo-scalar-arg"}),
     ("exists_in({a}[filter Me_1 > {s}], {b} + {c}, all)", "X", {"a": "clause-operand", "s": "clause", "b": "direct", "c": "direct"}),
+    ("case when {a}#Me_1 > {s} then {b} when {a}#Me_1 > {t} then {c} else {a}", "S", {"a": "membership", "s": "direct-scalar", "b": "direct", "t": "direct-scalar", "c": "direct"}),
+    ("{a}[calc Me_1 := case when Me_1 > {s} then Me_1 else {t}]", "S", {"a": "clause-operand", "s": "clause", "t": "clause"}),
+    ("{a}[unpivot Id_3, Me_9]", "X", {"a": "clause-operand"}),
+    ("{a}[calc identifier Id_3 := Id_2 || \"x\"][sub Id_2 = \"A\"]", "X", {"a": "clause-operand"}),
     ("round({a} / 3, {k})", "S", {"a": "direct"}),
     ("abs({a}) + abs({b})", "S", {"a": "direct", "b": "direct"}),
     ("power({a}, {s})", "S", {"a": "direct", "s": "direct-scalar"}),
